@@ -14,7 +14,7 @@ from vlib.proto import hexs, unhex
 
 LEAN_TARGETS = ["LyModel.Props.C11", "LyModel.Props.C11Range"]
 AUDIT = "Audit/C11.lean"
-GENERATED = ["Consts"]
+GENERATED = ["Consts", "IffSrc"]
 ASSUMPTIONS = [
     "if-feature: `lysp_feature_find` (prefix resolution + lookup by name) is an abstract function `lookup` in the theorems; the driver instantiates it with the module/import table of the request",
     "if-feature theorems are about YANG 1.1 modules (the YANG 1.0 `checkversion` path is covered by the correspondence only)",
